@@ -24,6 +24,7 @@ CHECKS = {
         design="7/C01"),
 }
 
+HOLD = set(open(os.path.join(V, "tools", "manifest.hold")).read().split()) if os.path.exists(os.path.join(V, "tools", "manifest.hold")) else set()
 NOT_YET = "check not built yet in this round (work in progress; see DESIGN.md section 7 for the plan)"
 
 
@@ -33,6 +34,8 @@ def main():
         for fn in sorted(os.listdir(d)):
             if fn.endswith(".json"):
                 e = json.load(open(os.path.join(d, fn)))
+                if fn[:-5] in HOLD or len(e.get("text", "")) < 200:   # placeholder or held back by the coordinator
+                    continue
                 e.setdefault("note", "")
                 e["note"] = PROOF_NOTE + e["note"]
                 e.setdefault("design", "7/" + fn[:-5])
